@@ -283,6 +283,39 @@ def firstDraw (rnd : Nat → Int) (stop : Int → Bool) : Nat → Nat → Option
 
 def drawFuel : Nat := 4096
 
+/-- the test of `prim_root` modulo the prime `p`: `A^e ≠ 1` for every exponent `e = phin/f`, `f` a listed prime factor of `phin` -/
+def primTest (p : Int) (exps : List Int) (A : Int) : Bool := exps.all (fun f => powmod A f.toNat p != 1)
+
+/-- the search of `prim_root(A, runs, n)` modulo `p`: the candidates 2, 3, 5, 6 in this order, then
+    `do { random(A, p); A = A mod (p-7) + 7 } while (gcd(A,p) != 1)` repeated until the test passes -/
+def primRootCand (rnd : Nat → Int) (p : Int) (exps : List Int) : Option Int :=
+  match [2, 3, 5, 6].find? (primTest p exps) with
+  | some A => some A
+  | none => firstDraw (fun i => rnd i % (p - 7) + 7) (fun A => Int.gcd A p == 1 && primTest p exps A) drawFuel 0
+
+/-- the end of `prim_root`: lift from `p` to `no2 = p^k` (add `p` when the candidate is not a primitive root modulo `p^k`),
+    then to `2 p^k` (make it odd) -/
+def primRootFinish (A p no2 : Int) (even k1 : Bool) : Int :=
+  if k1 then (if even ∧ A % 2 = 0 then A + p else A)
+  else
+    let A := if !isPrimRoot A no2 then A + p else A
+    if even ∧ A % 2 = 0 then A + no2 else A
+
+/-- `prim_root(A, runs, n)` for `n ∈ {2, 4, p^m, 2p^m}` with the random candidates drawn from `rnd`
+    (`primRootDet` above is its restriction to the four fixed candidates) -/
+def primRoot (rnd : Nat → Int) (n : Int) : Option Int :=
+  if n ≤ 4 then some (n - 1)
+  else if n % 4 = 0 then some 0
+  else
+    let even := decide (n % 2 = 0)
+    let no2 := if n % 2 = 0 then Int.tdiv n 2 else n
+    match primeFactors no2 with
+    | [] => none
+    | p :: _ =>
+      let phin := phi p
+      let exps := (primeFactors phin).map (fun f => Int.tdiv phin f)
+      (primRootCand rnd p exps).map (fun A => primRootFinish A p no2 even (decide (no2 = p)))
+
 /-- `for(m = 0; b2k != 1; ++m) b2k = b2k*b2k % p` -/
 def ordTwo : Nat → Int → Int → Nat → Option Nat
   | 0, _, _, _ => none
